@@ -130,6 +130,7 @@ func ShowPatch(p *bridge.Patch) string {
 type Outcome struct {
 	Err          *ErrInfo                `json:"err,omitempty"`
 	PlainError   string                  `json:"plain_error,omitempty"` // resource returns errors.New(PlainError)
+	RawErr       error                   `json:"-"`                     // resource returns exactly this error object (shared-object probes)
 	Panic        string                  `json:"panic,omitempty"`
 	Status       int                     `json:"status,omitempty"` // overridden / observed status
 	Entity       *model.Value            `json:"-"`
@@ -587,6 +588,9 @@ func errInfoFrom(er *common.ErrorResponse) *ErrInfo {
 	}
 	return &ErrInfo{Status: er.Status, Message: er.Message, Code: er.Code, ServiceErrorCode: er.ServiceErrorCode, ExceptionClass: er.ExceptionClass, DocUrl: er.DocUrl}
 }
+
+// Response builds a fresh library ErrorResponse from the description.
+func (ei *ErrInfo) Response() *common.ErrorResponse { return ei.response() }
 
 func (ei *ErrInfo) response() *common.ErrorResponse {
 	return &common.ErrorResponse{Status: ei.Status, Message: ei.Message, Code: ei.Code, ServiceErrorCode: ei.ServiceErrorCode, ExceptionClass: ei.ExceptionClass, DocUrl: ei.DocUrl}
